@@ -33,6 +33,9 @@ def shards(tier, seed):
             out.append(dict(id="C05/marg/%s/D%d" % (kind, D), part="marg", kind=kind, D=D, cost=D * D, facts=dict(kind=kind, D=D)))
         if tier == "quick":
             out.append(dict(id="C05/marg/%s/D5.large" % kind, part="marg", kind=kind, D=5, large=True, cost=30, facts=dict(kind=kind, D=5)))
+        # eight coordinates with extremely small / large variances (2^-130, 2^130): products of variances leave the double range
+        for sc in (-130, 130):
+            out.append(dict(id="C05/marg/%s/D8.huge.s%d" % (kind, sc), part="marg", kind=kind, D=8, large=True, huge=sc, cost=10, facts=dict(kind=kind, D=8)))
     for kind in ("GaussianPDF", "GaussianDiagPDF"):
         for D in (1, 2, 3):
             for Ds in range(1, D + 1):
@@ -45,6 +48,8 @@ def run_shard(shard, ctx):
 
 
 def index_lists(D, tier):
+    if D >= 8:
+        return [[0], [D - 1, 0], list(range(D)), list(range(D))[::-1], list(range(1, D, 2)) + list(range(0, D, 2)), list(range(D - 1))]
     ls = al.all_index_lists(D)
     if D >= 6:
         ls = [l for l in ls if len(l) <= 2] + [l for l in ls if len(l) > 2][::11]
@@ -56,10 +61,14 @@ def run_marg(shard, ctx):
     kind, D = shard["kind"], shard["D"]
     diag = "Diag" in kind
     vis = [0, 100, objs.HARD] if tier == "quick" else [0, 1, 2, 100, 101, 102, 103, 104, 105, objs.HARD]
-    for R in (BOUNDS[tier]["R"] if not shard.get("large") else [5]):
+    if shard.get("huge"):
+        vis = [100]
+    for R in (BOUNDS[tier]["R"] if not shard.get("large") else ([5] if not shard.get("huge") else [2])):
         for vi in vis:
             tag = ("c05", kind, D, R)
             Sig = objs.spd_batch(D, R, vi, seed, tag, diag=diag)
+            if shard.get("huge"):
+                Sig = Sig * 2.0 ** shard["huge"]
             mu = objs.vec_batch(D, R, vi, seed, tag)
             which = ("fresh", "sliced_neg", "updated", "Sigma+Lambda", "queried", "replaced_mu", "prod_conjugate", "conditioned", "prod_linear", "prod_constant", "hadamard_onerank", "multiply_onerank", "joint_of_cond", "hadamard_linear_bcast", "hadamard_linear_bcast>marginal", "hadamard_linear_bcast>slice", "posterior_identity") if (vi == 0 and D <= 3) else ("fresh",)
             for prep, mkp, mu_e, Sig_e in objs.pdf_variants(kind, Sig, mu, which=which):
@@ -112,7 +121,8 @@ def marg_on(ctx, shard, tier, p, ident, kind, D, R, vi, mu, Sig, prep):
                             integ[r, n] = rm.ln_integral(Lam[np.ix_(drop, drop)], nu[drop] - Lam[np.ix_(drop, dims)] @ xk, ck)
                         else:
                             integ[r, n] = ck
-                ctx.close("get_marginal.integral_of_joint", got, integ, tol=1e-7, facts=facts)
+                if not shard.get("huge"):  # (the unit-spaced identification lattice is meaningless at scales of 2^+-65)
+                    ctx.close("get_marginal.integral_of_joint", got, integ, tol=1e-7, facts=facts)
                 # type is preserved for diagonal densities; result is a coherent density
                 Sm, Lm = np.asarray(m.Sigma), np.asarray(m.Lambda)
                 ctx.close("get_marginal.SigmaLambda", np.einsum("rij,rjk->rik", Sm, Lm), np.tile(np.eye(len(dims))[None], (R, 1, 1)), symptom="incoherent", facts=facts)
